@@ -480,7 +480,7 @@ where
         }
         "buf" => {
             let Some(o) = objs.get_mut(&op[1]) else { return Res::Unsupported };
-            let mut d = data(&op[2], rs);
+            let mut d = data(&op[3], rs); // buf <id> ip <data>
             match o {
                 Obj::BufEnc(m) => m.encrypt(&mut d),
                 Obj::BufDec(m) => m.decrypt(&mut d),
